@@ -186,7 +186,7 @@ class C11:
 
     def gen_case(self, ch):
         feat = set()
-        kind = ch.int(0, 9)
+        kind = ch.int(0, 11)
         lines = []
         exp = []
         decls = ''
@@ -254,6 +254,34 @@ class C11:
             lines.append('printf("@ c %%ld %%d %%d\\n", (long)%s, (int)sizeof(%s), (int)((__typeof__(%s))-1 < 0));' % (lit, lit, lit))
             exp.append('c %d %d %d' % (v, sz, sg))
             feat.add('char:' + (prefix or 'plain'))
+        elif kind == 10:
+            # multi-character constants: type int; value as both reference compilers define it (characters packed, first one uppermost);
+            # the token must end at the closing quote whatever escapes it holds
+            plain = 'abcdxyzRIFW 019_+-*/#%&(){}[]<>!?.,;:~^|='
+            escs = [("\\'", 39), ('\\"', 34), ('\\\\', 92), ('\\n', 10), ('\\0', 0), ('\\377', 255), ('\\012', 10), ('\\101', 65), ('"', 34)]
+            n = ch.int(2, 4)
+            src = ''; v = 0
+            for i in range(n):
+                if ch.int(0, 2) == 0:
+                    e, c = ch.choice(escs) if i < n - 1 or ch.bool() else ch.choice([('\\x7f', 127), ('\\xA9', 0xa9), ('\\x0', 0)])
+                    if e == '\\0' and i < n - 1:
+                        e = '\\000'
+                else:
+                    c = ord(ch.choice(plain)); e = chr(c)
+                src += e; v = ((v << 8) | c) & 0xffffffff
+            v = v - (1 << 32) if v >= (1 << 31) else v
+            lit = "'%s'" % src
+            lines.append('printf("@ mc %%ld %%d\\n", (long)%s, (int)sizeof(%s));' % (lit, lit))
+            exp.append('mc %d 4' % v)
+            feat.add('multichar'); feat.add('simple-escape')
+        elif kind == 11:
+            # a pp-number goes on through every identifier character, ASCII or not: the tail must not be macro-expanded
+            tail = ch.choice(['\u00e9', '\u03b1', '\u4e2d', '$', '\U00010437', '_']) + 'zq7'
+            head = ch.choice(['1', '0x1', '1.', '.5', '1e+', '0'])
+            decls = '#define PSTR_(x) #x\n#define PXSTR_(x) PSTR_(x)\n#define zq7 5\n'
+            lines.append('printf("@ pp %%s\\n", PXSTR_(%s%s));' % (head, tail))
+            exp.append('pp %s%s' % (head, tail))
+            feat.add('ppnumber-extended'); feat.add('unicode-identifier')
         else:
             # Unicode identifiers: raw UTF-8 and UCN spellings denote the same identifier
             cps = [ch.choice([0xe9, 0x3b1, 0x4e2d, 0x3042, 0xac00, 0x10437, 0x2f800, 0xc0, 0x100]) for _ in range(ch.int(1, 3))]
